@@ -5,24 +5,66 @@ import (
 	"go/constant"
 	"go/token"
 	"go/types"
+
+	"golang.org/x/tools/go/packages"
 )
 
-// astEval evaluates a side-effect-free Go expression made of integer
-// comparisons, arithmetic and boolean connectives; anything else is handed to
-// resolve (atoms: variables, indexed elements, designated pure calls). It is
-// expression evaluation over a finite table of atom values — used to compare a
-// condition with its specification truth table — not execution of statements.
+// astEval evaluates side-effect-free Go expressions (integer comparisons,
+// arithmetic with the wrap-around of the expression's static type,
+// conversions, boolean connectives) and — through astEnv.call — pure helper
+// functions of the same package whose bodies are decisions (if / return with
+// optional init statements). Atoms (variables, indexed elements, designated
+// library calls) are supplied by resolve. It is evaluation of formulas over a
+// finite table of atom values, used to compare code with a specification
+// table; no statement with an effect is ever interpreted.
 type astVal struct {
 	i      int64
 	b      bool
 	isBool bool
 }
 
+type astEnv struct {
+	pkg     *packages.Package
+	resolve func(ast.Expr) (astVal, bool)
+	locals  map[string]astVal
+	subst   map[string]ast.Expr // parameter name -> argument expression (evaluated in parent)
+	parent  *astEnv
+	depth   int
+}
+
 func astEval(info *types.Info, e ast.Expr, resolve func(ast.Expr) (astVal, bool)) (astVal, bool) {
-	if v, ok := resolve(e); ok {
-		return v, true
+	env := &astEnv{pkg: &packages.Package{TypesInfo: info}, resolve: resolve}
+	return env.eval(e)
+}
+
+func (env *astEnv) info() *types.Info { return env.pkg.TypesInfo }
+
+func (env *astEnv) eval(e ast.Expr) (astVal, bool) {
+	if env.depth > 6 {
+		return astVal{}, false
 	}
-	if tv, ok := info.Types[e]; ok && tv.Value != nil {
+	// substitution of helper parameters
+	switch x := e.(type) {
+	case *ast.Ident:
+		if v, ok := env.locals[x.Name]; ok {
+			return v, true
+		}
+		if a, ok := env.subst[x.Name]; ok && env.parent != nil {
+			return env.parent.eval(a)
+		}
+	case *ast.SelectorExpr:
+		if id, ok := x.X.(*ast.Ident); ok {
+			if a, ok := env.subst[id.Name]; ok && env.parent != nil {
+				return env.parent.eval(&ast.SelectorExpr{X: a, Sel: x.Sel})
+			}
+		}
+	}
+	if env.resolve != nil {
+		if v, ok := env.resolve(e); ok {
+			return v, true
+		}
+	}
+	if tv, ok := env.info().Types[e]; ok && tv.Value != nil {
 		switch tv.Value.Kind() {
 		case constant.Int:
 			if k, exact := constant.Int64Val(tv.Value); exact {
@@ -32,11 +74,17 @@ func astEval(info *types.Info, e ast.Expr, resolve func(ast.Expr) (astVal, bool)
 			return astVal{b: constant.BoolVal(tv.Value), isBool: true}, true
 		}
 	}
+	wrap := func(v int64, ex ast.Expr) int64 {
+		if t := env.info().TypeOf(ex); t != nil {
+			return wrapToType(v, t)
+		}
+		return v
+	}
 	switch x := e.(type) {
 	case *ast.ParenExpr:
-		return astEval(info, x.X, resolve)
+		return env.eval(x.X)
 	case *ast.UnaryExpr:
-		v, ok := astEval(info, x.X, resolve)
+		v, ok := env.eval(x.X)
 		if !ok {
 			return astVal{}, false
 		}
@@ -44,15 +92,38 @@ func astEval(info *types.Info, e ast.Expr, resolve func(ast.Expr) (astVal, bool)
 		case token.NOT:
 			return astVal{b: !v.b, isBool: true}, v.isBool
 		case token.SUB:
-			return astVal{i: -v.i}, !v.isBool
+			return astVal{i: wrap(-v.i, e)}, !v.isBool
 		}
+	case *ast.CallExpr:
+		// conversion T(x)
+		if tv, ok := env.info().Types[x.Fun]; ok && tv.IsType() && len(x.Args) == 1 {
+			v, ok := env.eval(x.Args[0])
+			if !ok || v.isBool {
+				return astVal{}, false
+			}
+			return astVal{i: wrapToType(v.i, tv.Type)}, true
+		}
+		// substituted argument forms of library calls (e.g. bytes.Compare(a.Blob, b.Blob) inside a helper)
+		if env.parent != nil && len(env.subst) > 0 {
+			na := make([]ast.Expr, len(x.Args))
+			changed := false
+			for i, a := range x.Args {
+				na[i] = env.substitute(a)
+				if na[i] != a {
+					changed = true
+				}
+			}
+			if changed {
+				return env.parent.eval(&ast.CallExpr{Fun: x.Fun, Args: na})
+			}
+		}
+		return env.call(x)
 	case *ast.BinaryExpr:
-		a, ok1 := astEval(info, x.X, resolve)
+		a, ok1 := env.eval(x.X)
 		if !ok1 {
 			return astVal{}, false
 		}
-		// short-circuit forms still evaluate both sides here: the expressions are pure
-		b, ok2 := astEval(info, x.Y, resolve)
+		b, ok2 := env.eval(x.Y)
 		if !ok2 {
 			return astVal{}, false
 		}
@@ -80,11 +151,11 @@ func astEval(info *types.Info, e ast.Expr, resolve func(ast.Expr) (astVal, bool)
 		case token.GEQ:
 			return astVal{b: a.i >= b.i, isBool: true}, true
 		case token.ADD:
-			return astVal{i: a.i + b.i}, true
+			return astVal{i: wrap(a.i+b.i, e)}, true
 		case token.SUB:
-			return astVal{i: a.i - b.i}, true
+			return astVal{i: wrap(a.i-b.i, e)}, true
 		case token.MUL:
-			return astVal{i: a.i * b.i}, true
+			return astVal{i: wrap(a.i*b.i, e)}, true
 		case token.QUO:
 			if b.i == 0 {
 				return astVal{}, false
@@ -98,4 +169,125 @@ func astEval(info *types.Info, e ast.Expr, resolve func(ast.Expr) (astVal, bool)
 		}
 	}
 	return astVal{}, false
+}
+
+// substitute rewrites param / param.Field occurrences at the top of e by the bound argument.
+func (env *astEnv) substitute(e ast.Expr) ast.Expr {
+	switch x := e.(type) {
+	case *ast.Ident:
+		if a, ok := env.subst[x.Name]; ok {
+			return a
+		}
+	case *ast.SelectorExpr:
+		if nx := env.substitute(x.X); nx != x.X {
+			return &ast.SelectorExpr{X: nx, Sel: x.Sel}
+		}
+	case *ast.SliceExpr:
+		if nx := env.substitute(x.X); nx != x.X {
+			return &ast.SliceExpr{X: nx, Low: x.Low, High: x.High, Max: x.Max, Slice3: x.Slice3}
+		}
+	}
+	return e
+}
+
+// call evaluates a helper of the same package whose body is a decision.
+func (env *astEnv) call(x *ast.CallExpr) (astVal, bool) {
+	if env.pkg == nil || env.pkg.Syntax == nil {
+		return astVal{}, false
+	}
+	var obj types.Object
+	switch f := x.Fun.(type) {
+	case *ast.Ident:
+		obj = env.info().Uses[f]
+	case *ast.SelectorExpr:
+		obj = env.info().Uses[f.Sel]
+	}
+	fn, ok := obj.(*types.Func)
+	if !ok || fn.Pkg() != env.pkg.Types {
+		return astVal{}, false
+	}
+	var decl *ast.FuncDecl
+	for _, file := range env.pkg.Syntax {
+		for _, d := range file.Decls {
+			if fd, ok := d.(*ast.FuncDecl); ok && env.info().Defs[fd.Name] == obj {
+				decl = fd
+			}
+		}
+	}
+	if decl == nil || decl.Body == nil || decl.Recv != nil {
+		return astVal{}, false
+	}
+	sub := &astEnv{pkg: env.pkg, locals: map[string]astVal{}, subst: map[string]ast.Expr{}, parent: env, depth: env.depth + 1}
+	k := 0
+	for _, fld := range decl.Type.Params.List {
+		for _, nm := range fld.Names {
+			if k < len(x.Args) {
+				sub.subst[nm.Name] = x.Args[k]
+			}
+			k++
+		}
+	}
+	v, st := sub.block(decl.Body.List)
+	return v, st == "return"
+}
+
+// block runs a decision body: returns ("return", v), ("continue"), ("" fallthrough) or ("?").
+func (env *astEnv) block(stmts []ast.Stmt) (astVal, string) {
+	for _, st := range stmts {
+		switch x := st.(type) {
+		case *ast.IfStmt:
+			if x.Init != nil {
+				as, ok := x.Init.(*ast.AssignStmt)
+				if !ok || as.Tok != token.DEFINE || len(as.Lhs) != 1 || len(as.Rhs) != 1 {
+					return astVal{}, "?"
+				}
+				v, ok := env.eval(as.Rhs[0])
+				if !ok {
+					return astVal{}, "?"
+				}
+				env.locals[as.Lhs[0].(*ast.Ident).Name] = v
+			}
+			c, ok := env.eval(x.Cond)
+			if !ok || !c.isBool {
+				return astVal{}, "?"
+			}
+			if c.b {
+				if v, s := env.block(x.Body.List); s != "" {
+					return v, s
+				}
+			} else if x.Else != nil {
+				var v astVal
+				var s string
+				switch e := x.Else.(type) {
+				case *ast.BlockStmt:
+					v, s = env.block(e.List)
+				case *ast.IfStmt:
+					v, s = env.block([]ast.Stmt{e})
+				}
+				if s != "" {
+					return v, s
+				}
+			}
+		case *ast.ReturnStmt:
+			if len(x.Results) != 1 {
+				return astVal{}, "?"
+			}
+			v, ok := env.eval(x.Results[0])
+			if !ok {
+				return astVal{}, "?"
+			}
+			return v, "return"
+		case *ast.AssignStmt:
+			if x.Tok == token.DEFINE && len(x.Lhs) == 1 && len(x.Rhs) == 1 {
+				if v, ok := env.eval(x.Rhs[0]); ok {
+					env.locals[x.Lhs[0].(*ast.Ident).Name] = v
+					continue
+				}
+			}
+			return astVal{}, "?"
+		default:
+			return astVal{}, "?"
+		}
+	}
+	return astVal{}, ""
 }
